@@ -3,6 +3,7 @@
    Model/Layout.v = what air/src/layout.rs does (u32, bit trick, name maps, Kahn with a stack);
    Model/SysV.v  = what the psABI says (arithmetic, order-free); Extracted/LayoutTable.v = the
    (size, align) arms of layout_of as they are in the source today. *)
+From Coq Require Import Permutation.
 From Aelys Require Import Base.Tactics Extracted.LayoutTable Model.Layout Model.SysV Proofs.LayoutProofs.
 Local Open Scope N_scope.
 
@@ -62,9 +63,9 @@ Proof. exact c_struct_det. Qed.
    declaration order, any environment with unique names), every offset it stored is the C
    offset modulo 2^32 -- exactly the C offset when the struct is smaller than 4 GiB -- and every
    (size, align) it recorded is the C sizeof/_Alignof likewise.
-   _partial: that it does return for every acyclic, fully defined environment is
-   C18_layout_total below. *)
-Theorem C18_layout_matches_sysv_partial : forall chk E offs m,
+   This half also covers environments outside the property's domain (undefined names, pointer
+   soup) and the overflow-checked build. *)
+Theorem C18_layout_sound_whenever_it_returns : forall chk E offs m,
   NoDup (map sname E) ->
   compute_layouts chk E = Ok (offs, m) ->
   (forall i d os, nth_error E i = Some d -> nth_error offs i = Some (Some os) ->
@@ -73,6 +74,54 @@ Theorem C18_layout_matches_sysv_partial : forall chk E offs m,
   (forall nm sz al, rlookup m nm = Some (sz, al) ->
      exists f s, c_struct_sa f E nm = Some (s, al) /\ sz = s mod W32 /\ (s < W32 -> sz = s)).
 Proof. exact compute_layouts_sound. Qed.
+
+(* layout_matches_sysv: for EVERY well-formed environment (unique names, everything contained by
+   value is defined, containment well-founded -- any size, any nesting, any declaration order)
+   the release build returns, fills in the offsets of every struct, and offsets / size /
+   alignment are those of the C struct modulo 2^32, exactly those when the struct is < 4 GiB. *)
+Theorem C18_layout_matches_sysv : forall E, wf_env E ->
+  exists offs m, compute_layouts false E = Ok (offs, m) /\
+    forall i d, nth_error E i = Some d ->
+      exists os f cos s a,
+        nth_error offs i = Some (Some os) /\
+        c_struct f E (sfields d) = Some (cos, s, a) /\
+        os = map (fun o => o mod W32) cos /\ rlookup m (sname d) = Some (s mod W32, a) /\
+        (s < W32 -> os = cos /\ rlookup m (sname d) = Some (s, a)).
+Proof. exact layout_matches_sysv_lemma. Qed.
+
+(* _partial: for the overflow-checked build only this is proved for whole environments: if it
+   returns, it returns what the release build returns (hence the C layout, by the theorem above).
+   Missing: that it does not panic when every struct is smaller than 2^32 - 8 bytes (proved per
+   struct in C18_struct_layout_matches_sysv with chk = true, not composed over environments). *)
+Theorem C18_layout_matches_sysv_checked_build_partial : forall E offs m, wf_env E ->
+  compute_layouts true E = Ok (offs, m) ->
+  forall i d, nth_error E i = Some d ->
+    exists os f cos s a,
+      nth_error offs i = Some (Some os) /\ c_struct f E (sfields d) = Some (cos, s, a) /\
+      os = map (fun o => o mod W32) cos /\ (s < W32 -> os = cos /\ rlookup m (sname d) = Some (s, a)).
+Proof. exact layout_checked_partial_lemma. Qed.
+
+(* layout_order_independent: the same definitions in any two declaration orders get the same
+   offsets, sizes and alignments (no size guard) *)
+Theorem C18_layout_order_independent : forall E E', wf_env E -> Permutation E E' ->
+  exists offs m offs' m',
+    compute_layouts false E = Ok (offs, m) /\ compute_layouts false E' = Ok (offs', m') /\
+    forall i i' d, nth_error E i = Some d -> nth_error E' i' = Some d ->
+      nth_error offs i = nth_error offs' i' /\ rlookup m (sname d) = rlookup m' (sname d).
+Proof. exact layout_order_independent_lemma. Qed.
+
+(* cycle_diagnosed: if some non-empty set of structs is closed under "has a field that contains
+   (directly or inside arrays) a member of the set", compute_layouts stops with one of its two
+   diagnostics in both builds and lays nothing out *)
+Theorem C18_cycle_diagnosed : forall chk E, NoDup (map sname E) -> byvalue_cycle E ->
+  compute_layouts chk E = Fail ESelfRef \/ compute_layouts chk E = Fail ECycle.
+Proof. exact cycle_diagnosed_lemma. Qed.
+
+(* the fuel given to the model of the Kahn loop always suffices: the only outcomes are an order
+   or the cycle diagnostic *)
+Theorem C18_kahn_fuel_sufficient : forall E,
+  (exists order, topological_order E = Ok order) \/ topological_order E = Fail ECycle.
+Proof. exact topological_order_outcomes. Qed.
 
 (* cycle_diagnosed, direct case: a struct that contains itself by value (possibly inside arrays) *)
 Theorem C18_self_reference_diagnosed : forall chk E d t,
@@ -100,7 +149,7 @@ Proof. exact doubling_witness_facts. Qed.
 Example C18_nonvacuous :
   let E := [(2, [TPrim PU8; TArray (TStruct 1) 3; TPrim PU8; TPtr (TStruct 2)]);
             (1, [TPrim PI8; TPrim PI32; TPrim PI16])] in
-  NoDup (map sname E) /\
+  wf_env E /\ byvalue_cycle [(1, [TStruct 2]); (2, [TArray (TStruct 1) 0])] /\
   (exists m, compute_layouts true E = Ok ([Some [0; 4; 40; 48]; Some [0; 4; 8]], m)
              /\ rlookup m 1 = Some (12, 4) /\ rlookup m 2 = Some (56, 8)) /\
   c_struct 3 E (sfields (2, [TPrim PU8; TArray (TStruct 1) 3; TPrim PU8; TPtr (TStruct 2)]))
@@ -108,7 +157,7 @@ Example C18_nonvacuous :
   compute_layouts true [(1, [TStruct 2]); (2, [TArray (TStruct 1) 0])] = Fail ECycle /\
   compute_layouts false [(1, [TPrim PU8; TArray (TStruct 1) 2])] = Fail ESelfRef.
 Proof.
-  cbv zeta. split; [repeat constructor; cbn; intuition discriminate|].
+  cbv zeta. split; [exact example_wf|]. split; [exact example_cycle|].
   split; [eexists; vm_compute; repeat split; reflexivity|].
   vm_compute. repeat split; reflexivity.
 Qed.
